@@ -72,6 +72,9 @@ func c01Check(c c01Case, rec *evid.Recorder) *Fail {
 			rec.Discard("output run " + got.Completion)
 			continue
 		}
+		if !ref.Equal(got) && c01EscapedDirective(c.Src, res.Code) {
+			return failf("[%s] a string statement that is no directive in the source (one of its characters is written as an escape) is emitted as the directive \"use strict\": the compiled code runs in strict mode\nsource: %s\noutput: %s %s\nsrc  %q\ncode %q", cfg, ref, got, got.Detail, c.Src, res.Code).tag("escaped-directive-becomes-directive")
+		}
 		if !ref.Equal(got) {
 			return failf("[%s] compiled code behaves differently from the source\nsource: %s\noutput: %s %s\nsrc  %q\ncode %q", cfg, ref, got, got.Detail, c.Src, res.Code)
 		}
@@ -93,6 +96,32 @@ func c01Check(c c01Case, rec *evid.Recorder) *Fail {
 	return nil
 }
 
+// c01EscapedDirective: the output begins with the directive "use strict" while
+// the source begins (after white space and comments) with a quoted string that
+// contains a backslash - i.e. a string statement that is not a directive.
+func c01EscapedDirective(src, code string) bool {
+	if !strings.HasPrefix(strings.TrimLeft(code, " \t\r\n"), "\"use strict\"") {
+		return false
+	}
+	s := src
+	for {
+		s = strings.TrimLeft(s, " \t\r\n")
+		if strings.HasPrefix(s, "//") {
+			if i := strings.IndexAny(s, "\r\n"); i >= 0 {
+				s = s[i:]
+				continue
+			}
+			return false
+		}
+		break
+	}
+	if len(s) == 0 || (s[0] != '"' && s[0] != '\'') {
+		return false
+	}
+	end := strings.IndexByte(s[1:], s[0])
+	return end >= 0 && strings.Contains(s[1:1+end], "\\")
+}
+
 func c01Gen(t *rapid.T, rec *evid.Recorder) c01Case {
 	r := gen.R{T: t}
 	g := gen.NewExec(r)
@@ -109,6 +138,11 @@ func c01Gen(t *rapid.T, rec *evid.Recorder) c01Case {
 	}
 	if r.Intn(5, "minimal") == 0 {
 		opt = layout.Options{}
+	}
+	if g.Features["escaped-directive-lookalike"] > 0 {
+		// goja takes a parenthesised string statement for a directive as well (V8
+		// and the specification do not): no redundant parentheses in these programs
+		opt.Redundant = 0
 	}
 	src, toks := layout.Source(r, tree, opt)
 	for k := range layoutFeatures(src, toks) {
